@@ -94,6 +94,7 @@ def strategy_(draw, tier):
             sm = [i for i, r in enumerate(records) if r['kind'] == 'small']
             case['held_out'] = sorted(d.sample(sm, d.randint(1, max(1, len(sm) // 2)))) \
                 if sm else []
+            case['index_gvfs'] = d.chance(0.5)
     return case
 
 
@@ -148,6 +149,8 @@ def prop(case, ctx):
     out = Outcome()
     k = case['kind']
     out.label('kind:' + k, 'family:' + case['family'], 'rule:' + case['opts']['rule'])
+    if case.get('index_gvfs'):
+        out.label('gvfs_indexed')
     oa, ra, ob, rb = pair(case)
     if not ra:
         return out.label('no_records')
